@@ -26,6 +26,7 @@ ARGS = {
     'slice': ('&[u8]', ['[]', '[1, 2]', '[1, ..]', '[.., 9]', '[a, b]', '[first, .., last]', '_']),
     'vec': ('Vec<u8>', ['[]', '[1, ..]', '[_, _]', '_']),
     'optref': ('Option<&str>', ['None', 'Some("x")', 'Some(_)', '_']),
+    'unit': ('U', ['U', '_']),
 }
 STR_LIT_KINDS = {'str', 'string', 'newtype'}
 SLICE_KINDS = {'slice', 'vec'}
@@ -34,6 +35,7 @@ PRELUDE = '''
     #[derive(Debug, Clone, PartialEq)] pub enum E { A, B(u8), C { x: u8, y: bool } }
     #[derive(Debug, Clone, PartialEq)] pub struct S { pub a: u8, pub b: bool }
     #[derive(Debug, Clone, PartialEq)] pub struct NameT(pub String);
+    #[derive(Debug, Clone, PartialEq)] pub struct U;
     impl AsRef<str> for NameT { fn as_ref(&self) -> &str { &self.0 } }
 '''
 
@@ -62,6 +64,7 @@ def bindings_of(p):
 
 def generate(tier, seed):
     rnd = random.Random(seed * 104729 + 5)
+    off = seed * 7      # the seed rotates which kinds / sub-patterns are combined in the multi-argument cases
     kinds = list(ARGS)
     cases = []
     # (1) every kind x every pattern as a 1-argument simple case
@@ -72,14 +75,14 @@ def generate(tier, seed):
     n2 = 40 if tier == 'quick' else 300
     for i in range(n2):
         arity = 2 + i % 3
-        ks = [kinds[(i * 3 + j * 5) % len(kinds)] for j in range(arity)]
-        ps = [ARGS[k][1][(i + j * 7) % len(ARGS[k][1])] for j, k in enumerate(ks)]
+        ks = [kinds[(i * 3 + j * 5 + off) % len(kinds)] for j in range(arity)]
+        ps = [ARGS[k][1][(i + j * 7 + off) % len(ARGS[k][1])] for j, k in enumerate(ks)]
         cases.append(dict(kinds=ks, alts=[ps], guard=None, form='simple'))
     # (3) disjunctive form with 2-3 alternatives, optional guard over a binding of an i32 position
     n3 = 30 if tier == 'quick' else 200
     for i in range(n3):
         arity = 2 + i % 3
-        ks = ['i32'] + [kinds[(i * 5 + j * 3 + 1) % len(kinds)] for j in range(arity - 1)]
+        ks = ['i32'] + [kinds[(i * 5 + j * 3 + 1 + off) % len(kinds)] for j in range(arity - 1)]
         nalt = 2   # the macro's grammar rejects 3+ parenthesised alternatives (`Expected tuple`): see DESIGN.md
         alts = []
         for a in range(nalt):
@@ -90,17 +93,29 @@ def generate(tier, seed):
                 else:
                     nb = [q for q in ARGS[k][1] if not __import__('re').search(r'\b(x|s|n|a|b|first|last)\b(?!\s*:)', __import__('re').sub(r'"[^"]*"|\'[^\']*\'', '', q)) or q.startswith('S {') and 'a,' not in q]
                     nb = [q for q in nb if q not in ('E::C { x, y: true }', 'S { a, .. }')]
-                    ps.append(nb[(i + a * 3 + j) % len(nb)])
+                    ps.append(nb[(i + a * 3 + j + off) % len(nb)])
             # bindings other than g must not differ between alternatives: replace bindings by wildcards in non-first positions
             alts.append(ps)
         guard = '*g > %d' % (i % 5) if i % 2 == 0 else None
         cases.append(dict(kinds=ks, alts=alts, guard=guard, form='disj'))
+    # (3b) alternatives that *look* irrefutable to a syntactic test (only `_` and bare identifiers) but are not: unit variants
+    #      (`None`) and unit structs are `Pat::Ident` too. Later alternatives must still be reachable.
+    look = [
+        (['opt'], [['None'], ['Some(1)']]),
+        (['opt', 'i32'], [['None', '_'], ['Some(_)', '3..=5']]),
+        (['i32', 'optref'], [['_', 'None'], ['1', 'Some("x")']]),
+        (['unit', 'i32'], [['U', '_'], ['_', '1']]),
+        (['unit', 'opt'], [['U', 'None'], ['_', 'Some(1 | 2)']]),
+        (['opt', 'opt'], [['None', 'None'], ['Some(1)', '_']]),
+    ]
+    for ks, alts in look:
+        cases.append(dict(kinds=ks, alts=alts, guard=None, form='disj'))
     # (4) eq!/ne! operands
     n4 = 16 if tier == 'quick' else 60
     eqk = list(EQ_OPERANDS)
     for i in range(n4):
         arity = 1 + i % 3
-        ks = [eqk[(i + j * 3) % len(eqk)] for j in range(arity)]
+        ks = [eqk[(i + j * 3 + off) % len(eqk)] for j in range(arity)]
         ps = []
         for j, k in enumerate(ks):
             mode = (i + j) % 3
@@ -115,7 +130,7 @@ def generate(tier, seed):
     guards = ['*g > 10', '*g > 10 || *g == 0', '*g == 1 || *g == 2 || *g == 3', '*g > 10 && *g < 20', '!(*g > 3) || *g == 7']
     n4b = 10 if tier == 'quick' else 40
     for i in range(n4b):
-        k = eqk[i % len(eqk)]
+        k = eqk[(i + off) % len(eqk)]
         mode = 'eq' if i % 2 == 0 else 'ne'
         ps = ['%s!(%s)' % (mode, EQ_OPERANDS[k]), 'g']
         ks = [k, 'i32']
